@@ -45,11 +45,11 @@ CLAIMED = {
     "C07": dict(
         text="Kani runs the real slice::sort over symbolic Rank values of the producible domain and decides the ordering clauses and stability; the MIR "
              "executor runs the whole phonetic assembly with auto-correct, dictionary, emoji and selection oracles and symbolic distances and z3 decides "
-             "the ranking clauses, English-last and no-duplicates on every path; executor and native build agree on concrete typed texts. Every dictionary-derived candidate carries the distance of its dictionary word / of its base. Two re-loads of the user's auto-correct file in a row under a free environment: a file newer than the last successful load is read; after a re-load the entries in force (added, changed, deleted) decide what is first also for memoised words.",
+             "the ranking clauses, English-last and no-duplicates on every path; executor and native build agree on concrete typed texts. Every dictionary-derived candidate carries the distance of its dictionary word / of its base. Two re-loads of the user's auto-correct file in a row under a free environment: a file newer than the last successful load is read; after a re-load the entries in force (added, changed, deleted) decide what is first also for memoised words. Rank::new_suggestion from MIR with the edit-distance crate an uninterpreted recording function: a dictionary word carries ten times that function's answer for (transliteration, word).",
         technique="Kani/CBMC SAT (real std sort) + symbolic execution of rustc MIR with z3 (data oracles)"),
     "C08": dict(
         text="Suffix half: add_suffix_to_suggestions/suggest from MIR for a symbolic word with every split point, suffix and memo oracles: z3 decides that "
-             "every base candidate of every known base|suffix split appears joined by the reference rules (completeness) on every path. The base alone is run first and every auto-correct / dictionary candidate it was offered must come back joined; every dictionary-class candidate of the whole word must be justified by the table's answer for the tail exactly as typed.",
+             "every base candidate of every known base|suffix split appears joined by the reference rules (completeness) on every path. The base alone is run first and every auto-correct / dictionary candidate it was offered must come back joined; every dictionary-class candidate of the whole word must be justified by the table's answer for the tail exactly as typed. Two candidates per base, the first possibly empty.",
         technique="symbolic execution of rustc MIR with z3 against reference joining rules"),
     "C09": dict(
         text="Learn round trip from MIR: suggest -> candidate_committed(any index other than the preselected one) -> suggest again, with data oracles and "
@@ -74,24 +74,24 @@ CLAIMED = {
         technique="symbolic execution of rustc MIR with z3 against a syllable-grammar reference"),
     "C14": dict(
         text="Paired key histories from idle (typewriter order with the option on vs Unicode order with it off) over complete syllable templates with "
-             "class-constrained symbolic letters and all 16 settings of the other helpers: z3 decides equal final texts and the pending-sign clauses. The suggestion switch is symbolic: every key shows the text composed so far.",
+             "class-constrained symbolic letters and all 16 settings of the other helpers: z3 decides equal final texts and the pending-sign clauses. The suggestion switch is symbolic: every key shows the text composed so far. Independent vowels typed as hasanta + sign after a sign-first syllable.",
         technique="symbolic execution of rustc MIR with z3 (paired histories)"),
     "C15": dict(
         text="Fixed candidate assembly from MIR with the regex search, emoji tables as oracles: z3 decides first candidate = composed text (curled), cap of "
              "nine, English slot, distance order, no duplicates, dictionary candidates are wrapped search answers; the regex pattern built from any word "
-             "is anchored with a meta-free literal; Kani runs the real sort_unstable; the dictionary order contract is validated on the data.",
+             "is anchored with a meta-free literal; Kani runs the real sort_unstable; the dictionary order contract is validated on the data. Arbitrary table entries with the regex engine modelled on the one pattern shape the search builds: whatever is offered begins with the typed word. sort_unstable leaves ties to the environment.",
         technique="symbolic execution of rustc MIR with z3 (data oracles) + Kani/CBMC (real sort_unstable)"),
     "C16": dict(
         text="Kani decides the English-masked-by-ANSI switch and the read-out law pre-edit = encode(candidate) iff ANSI (encoder = tagging stub); the MIR "
-             "executor decides for both assemblies that with ANSI on no emoji, emoticon text or raw English reaches the list for any English setting. The ANSI clause is also decided for the list shown after an option change on a warm object. Under ANSI no candidate IS the typed text or an emoji of the tables, whatever rank class it carries (auto-correct oracles included).",
+             "executor decides for both assemblies that with ANSI on no emoji, emoticon text or raw English reaches the list for any English setting. The ANSI clause is also decided for the list shown after an option change on a warm object. Under ANSI no candidate IS the typed text or an emoji of the tables, whatever rank class it carries (auto-correct oracles included). Kani: after the selection field of a list is moved (as a punctuation key does) the pre-edit text of candidate i is still the encoding of candidate i.",
         technique="Kani/CBMC SAT + symbolic execution of rustc MIR with z3"),
     "C17": dict(
         text="Quoter kernel for all strings within the bound, and paired assembly runs (smart quotes on vs off, same oracles) for both methods: z3 decides "
-             "same length, order, preselection and candidate-wise equality after un-curling (raw typed text identical). Learn round trip of quoted words with the switch symbolic.",
+             "same length, order, preselection and candidate-wise equality after un-curling (raw typed text identical). Learn round trip of quoted words with the switch symbolic. Wrappers in which converted punctuation (escaped colon, explicit hasanta) follows the closing quote.",
         technique="symbolic execution of rustc MIR with z3 (paired runs)"),
     "C18": dict(
         text="Assembly from MIR with emoticon / emoji-name oracles: z3 decides that the emoji of an emoticon is offered and the literal text kept once, "
-             "all emoji of a name are offered wrapped and in table order, in both methods; ANSI excludes them. The same after an option change on a warm object.",
+             "all emoji of a name are offered wrapped and in table order, in both methods; ANSI excludes them. The same after an option change on a warm object. The fixed method's sort_unstable is modelled with every tie the environment's choice: table order of the emoji must not depend on it. Emoticons with a hyphen inside, the table's answer for the text as typed fixed up front.",
         technique="symbolic execution of rustc MIR with z3 (data oracles)"),
     "C19": dict(
         text="Kani with CBMC pointer checks decides the ownership protocol of suggestion, string and config objects through the exported functions "
